@@ -133,3 +133,78 @@ PROPS["C01"] = dict(
                   custom("miri_stage", release=False, shards=16, scale=8, name="miri:dev")],
     ),
 )
+
+PROPS["C02"] = dict(
+    level="exploration",
+    technique="history + model: generated syntax tree is the expected tree; render under random spellings, parse with rrss, compare trees",
+    level_text=("Each generated model tree is rendered under 8 (quick) / 32 (thorough) independent spellings (alias, case, "
+                "noise, comments, separators, optional words, number forms, symbolic vs worded operators) and the tree rrss "
+                "parses from each text must equal the generated one. Every (keyword class, alias) pair is additionally "
+                "forced at least once on a program containing every construct. Held on the pairs explored; the product "
+                "of trees and spellings is sampled, alias coverage is complete."),
+    level_note=("The alias table and grammar rules in the harness (kw.rs, render.rs, DESIGN.md Appendix A) are the "
+                "specification; expressibility restrictions of the generator (greedy calls, unary-only list elements, "
+                "if/else last in a function body) bound the tree space."),
+    rule=("cases = (model tree, spelling) pairs; tree from the syntax-directed generator over all 19 statement kinds and "
+          "all expression forms (block depth <= 5, expression depth <= 8) or the kitchen-sink program with one alias forced; "
+          "distinct_nontrivial = distinct rendered texts (64-bit hash) that were parsed and compared."),
+    require=["tree_spelling_pairs", "trees", "set:statement_kinds:19", "set:operators_and_forms:18",
+             "set:alias_pairs:131", "set:forced_pairs_ok:134"],
+    assumptions=TRUST_BASE,
+    stages=dict(quick=[native("dbg")], thorough=[native("dbg"), native("rel")]),
+)
+
+PROPS["C11"] = dict(
+    level="exploration",
+    technique="reference digit rule (own decimal numeral -> str::parse) vs compute_value and vs the printed value of executed programs; exact text comparison for poetic strings",
+    level_text=("Generated word sequences (lengths 1-23 incl. multiples of ten, keywords as words, inner/trailing apostrophes, "
+                "'s/'re suffixes, hyphenated parts, periods/commas/ignorable punctuation and comments in every position, "
+                "accented letters) in assignment and `rock ... like` position; the value rrss computes and prints is compared "
+                "with the correctly rounded decimal numeral of the digit rule (4 ulp, exact for integers < 2^53). Poetic "
+                "strings: printed text must equal the text after `says `. Right-hand sides starting with a literal or a "
+                "negative number are run against the reference interpreter."),
+    level_note="Trusted: str::parse::<f64> (correct rounding) and f64 Display for reading the printed value back.",
+    rule=("cases = poetic number literals / poetic string lines / literal-first right-hand sides; distinct_nontrivial = distinct "
+          "(length sequence, text) pairs resp. distinct program texts. Lines that leave a quote or parenthesis open are outside "
+          "the property's quantifier and are not generated; a suffix with no word before it is don't-care for the value (C09 checks it does not crash)."),
+    require=["number_literals", "printed_values_compared", "strings_compared", "ordinary_expression_cases_agreed",
+             "set:shapes:6"],
+    assumptions=TRUST_BASE,
+    stages=dict(quick=[native("dbg")], thorough=[native("dbg"), native("rel")]),
+)
+
+PROPS["C12"] = dict(
+    level="exploration",
+    technique="invariant monitor over the token stream: slice-of-source, order, ignorable gaps and line/column recomputed from the text; cross-check with the renderer's own position record",
+    level_text=("Every token of rrss's lexer on generated texts is checked against positions recomputed from the source text "
+                "alone (pointer arithmetic for the slice, newline counting for line and byte column, end position), with "
+                "workloads biased to multi-line strings/comments followed by suffixes and more tokens on the same line, "
+                "multi-byte characters, CR/LF and tokens at end of input; rendered programs add the renderer's record of "
+                "what it emitted where as a second, independent ground truth."),
+    level_note="Trusted: the recomputation (a dozen lines) and the definition of ignorable characters transcribed in c12.rs.",
+    rule=("cases = source texts (token soup, multi-line-biased soup, rendered programs); distinct_nontrivial = distinct texts with >= 2 tokens."),
+    require=["tokens_checked", "multi_line_tokens", "suffix_after_multi_line_token", "tokens_after_multi_byte_chars",
+             "texts_with_crlf", "tokens_at_end_of_input", "renderer_maps_compared", "end_positions_checked",
+             "set:token_types:70"],
+    assumptions=TRUST_BASE,
+    stages=dict(quick=[native("dbg"), native("rel")],
+                thorough=[native("dbg"), native("rel"),
+                          custom("miri_stage", release=True, shards=16, scale=4, name="miri:release")]),
+)
+
+PROPS["C13"] = dict(
+    level="exploration",
+    technique="fault injection into valid rendered programs at statement boundaries; oracle = parse must fail on the line known from the renderer's line map",
+    level_text=("Valid generated programs (nested blocks, blank lines, multi-line comments and strings before the fault) x "
+                "statement-boundary positions x a catalogue of ~80 context-independent syntax faults (missing operand, "
+                "missing keyword, second statement on a line, token that cannot start a statement, invalid identifier, "
+                "unterminated token). Quick samples positions and entries; thorough enumerates every position x every "
+                "entry per program."),
+    level_note=("The catalogue is validated on its own in every run (each entry must be rejected on line 1 and on line 4 of a "
+                "three-line context). Unterminated-token faults are only injected where nothing later closes the token."),
+    rule=("cases = (program, position, fault) triples; distinct_nontrivial = distinct faulty texts."),
+    require=["triples", "rejected_on_the_right_line", "positions_after_multi_line_tokens",
+             "fault_on_last_line_without_newline", "set:catalogue_entries_used:80", "set:error_codes:9"],
+    assumptions=TRUST_BASE,
+    stages=dict(quick=[native("dbg")], thorough=[native("dbg"), native("rel")]),
+)
